@@ -299,7 +299,8 @@ out:
 
 /* ------------------------------------------------------------------ GET through the server
  *   get <mode> { table ops }  { F <query> }*  { B <szx> }*
- * <mode> 0: context block mode 0 (default), 1: COAP_BLOCK_USE_LIBCOAP.  <query>: "~" no
+ * <mode> bit 0: COAP_BLOCK_USE_LIBCOAP (else block mode 0, the default); bit 1: the server's
+ * block size is capped at 64 (coap_context_set_max_block_size).  <query>: "~" no
  * Uri-Query option, else one Uri-Query option with these bytes (several F: several options).
  * A server endpoint is bound to 127.0.0.1:0; the harness is the client and speaks raw CoAP over a
  * connected UDP socket: one GET without Block2, then for each B <szx> a block-wise GET starting
@@ -407,6 +408,7 @@ static int fetch(int fd, const uint8_t *q, size_t qn, int has_q, int szx,
       if (!bad[0] && blk.m && dl != sz) snprintf(bad, badn, "FAIL:short-block(num=%u,len=%zu)", blk.num, dl);
       if (!bad[0] && dl > sz) snprintf(bad, badn, "FAIL:long-block(num=%u,len=%zu)", blk.num, dl);
       if (!bad[0] && szx >= 0 && blk.szx > (unsigned)szx) snprintf(bad, badn, "FAIL:bigger-block-than-asked");
+      if (!bad[0] && round > 0 && blk.szx != cur_szx) snprintf(bad, badn, "FAIL:block-size-changed(num=%u)", blk.num);
       got += dl;
       if (!blk.m) { coap_delete_pdu(p); break; }
       cur_szx = blk.szx;
@@ -438,6 +440,7 @@ static void run_get(int i) {
   bad[0] = 0;
   blocks[0] = 0;
   if (mode & 1) coap_context_set_block_mode(ctx, COAP_BLOCK_USE_LIBCOAP);
+  if (mode & 2) coap_context_set_max_block_size(ctx, 64);   /* the server caps the block size */
   coap_address_init(&addr);
   addr.addr.sin.sin_family = AF_INET;
   addr.addr.sin.sin_addr.s_addr = htonl(INADDR_LOOPBACK);
